@@ -67,6 +67,10 @@ def check_contract(cfg, obs, ret, final_weights, warning_texts):
             out.append(("recorded_feature_count_is_not_the_models", {"t": t, "recorded": n_features[t], "model": s["n_sel"]}))
         if not (penalties[t] == s["penalty"]):
             out.append(("recorded_penalty_is_not_the_models", {"t": t, "recorded": penalties[t], "model": s["penalty"]}))
+        rsc = s.get("ref_score")
+        if rsc is not None and not (abs(s["score"] - rsc) <= 1e-9 * max(1.0, abs(rsc)) + 1e-7) and not s["nan"]:
+            out.append(("step_score_is_not_the_score_of_the_model_at_that_step", {"t": t, "used_by_the_path": s["score"], "model_score": rsc,
+                                                                                  "selected_features": s["n_sel"]}))
         if not (geminis[t] == s["score"]):
             out.append(("recorded_score_is_not_the_step_score", {"t": t, "recorded": geminis[t], "step": s["score"]}))
     # stopping
@@ -109,6 +113,27 @@ def check_contract(cfg, obs, ret, final_weights, warning_texts):
     return out
 
 
+def reference_val_score(clf, X, y, batch_size, gem):
+    """The score the path contract speaks of: size-weighted mean over consecutive validation blocks of the GEMINI of the model's predictions on
+    the block, with the block of the user's affinity when one is given, else the affinity of the block's samples - restricted to the currently
+    selected features in dynamic mode (written down independently of compute_val_score)."""
+    X = np.asarray(X)
+    n, d = X.shape
+    sel = np.arange(d)
+    if getattr(clf, "dynamic", False) and y is None:
+        sel = np.asarray(clf.get_selection())
+    bs = n if batch_size is None else int(batch_size)
+    total = 0.0
+    try:
+        for j in range(0, n, bs):
+            Xb = X[j:j + bs]
+            A = np.asarray(y)[j:j + bs][:, j:j + bs] if y is not None else gem.compute_affinity(Xb[:, sel])
+            total += float(gem(clf.predict_proba(Xb), A)) * len(Xb)
+    except Exception:  # noqa  (e.g. the empty dynamic selection of KF-C07-1: the implementation's own call has raised already)
+        return None
+    return total / n
+
+
 def observe_path(model, X, y, path_kwargs, call_limit=4000):
     """Runs model.path(...) with a spy on compute_val_score; returns (ret, obs, warning texts)."""
     import warnings
@@ -124,7 +149,8 @@ def observe_path(model, X, y, path_kwargs, call_limit=4000):
 
     def spy(clf, Xa, ya, batch_size, gem):
         r = real(clf, Xa, ya, batch_size, gem)
-        calls.append({"epochs_so_far": len(bspy.log), "alpha": clf.alpha, "score": r[0], "n_sel": int(clf._n_selected_features()),
+        calls.append({"epochs_so_far": len(bspy.log), "alpha": clf.alpha, "score": r[0], "ref_score": reference_val_score(clf, Xa, ya, batch_size, gem),
+                      "n_sel": int(clf._n_selected_features()),
                       "penalty": clf._group_lasso_penalty(), "weights": [w.copy() for w in clf._get_weights()]})
         if len(calls) > call_limit:
             raise NonTermination()
@@ -163,7 +189,7 @@ def observe_path(model, X, y, path_kwargs, call_limit=4000):
     for s in steps:
         last = s["calls"][-1]
         sc = last["score"]
-        obs_steps.append({"alpha": s["alpha"], "n_sel": last["n_sel"], "score": sc, "penalty": last["penalty"],
+        obs_steps.append({"alpha": s["alpha"], "n_sel": last["n_sel"], "score": sc, "ref_score": last.get("ref_score"), "penalty": last["penalty"],
                           "weights": last["weights"], "last_weights": last["weights"], "epochs": len(s["calls"]) - 1,
                           "nan": bool(isinstance(sc, float) and math.isnan(sc)) or bool(np.isnan(sc))})
     obs = {"d": np.asarray(X).shape[1], "init": {"score": init["score"], "n_sel": init["n_sel"], "weights": init["weights"]},
